@@ -319,6 +319,8 @@ def handler_exc_class(name):
         return MpTimeout
     if name == 'Boom':
         return Boom
+    if name == 'TwoArgInit':
+        return TwoArgInit
     if name.startswith('queue.'):
         return getattr(queue, name.split('.')[1])
     if name.startswith('asyncio.'):
